@@ -6,6 +6,7 @@ use itertools::enumerate;
 use crate::check::constrain::constraint::builder::ConstrBuilder;
 use crate::check::constrain::constraint::expected::Expect::*;
 use crate::check::constrain::constraint::expected::Expected;
+use crate::check::constrain::constraint::{Constraint, MapExp};
 use crate::check::constrain::generate::env::Environment;
 use crate::check::constrain::generate::{generate, Constrained};
 use crate::check::context::arg::SELF;
@@ -220,6 +221,19 @@ pub fn id_from_var(
         generate(expr, &env.is_expr(true), ctx, constr)?;
     }
 
+    // The expression is evaluated before the variable exists: its names are those of the incoming
+    // scope, also when the definition shadows one of them.
+    let (outer, global) = (env.var_mapping.clone(), constr.var_mapping.clone());
+    let in_outer_scope = |exp: &Expected| exp.map_exp(&outer, &global);
+    let with_expr = |constr: &mut ConstrBuilder,
+                     msg: &str,
+                     parent: &Expected,
+                     expr: &Expected,
+                     env: &Environment| {
+        let parent = parent.map_exp(&env.var_mapping, &constr.var_mapping);
+        constr.add_constr_map(&Constraint::new(msg, &parent, expr), &env.var_mapping, true);
+    };
+
     let mut env = env.clone();
     let identifier = Identifier::try_from(var)?.as_mutable(mutable);
     match (ty, expr) {
@@ -240,12 +254,8 @@ pub fn id_from_var(
                 &Expected::from(var),
                 &env,
             );
-            constr.add(
-                "variable with expression",
-                &ty_exp,
-                &Expected::from(expr),
-                &env,
-            );
+            let expr_exp = in_outer_scope(&Expected::from(expr));
+            with_expr(constr, "variable with expression", &ty_exp, &expr_exp, &env);
         }
         (Some(ty), None) => {
             for (f_name, (f_mut, name)) in match_name(&identifier, ty, var.pos)? {
@@ -292,11 +302,11 @@ pub fn id_from_var(
                 if let Node::Tuple { elements } = &expr.node {
                     if elements.len() == temp_names.len() {
                         for (i, (expr, ty)) in enumerate(elements.iter().zip(&temp_names)) {
-                            let expr_exp = Expected::from(expr);
+                            let expr_exp = in_outer_scope(&Expected::from(expr));
                             let expr_ty = Expected::new(expr.pos, &Type { name: ty.clone() });
 
                             let msg = format!("tuple literal element {i}");
-                            constr.add(&msg, &expr_ty, &expr_exp, &env);
+                            with_expr(constr, &msg, &expr_ty, &expr_exp, &env);
                         }
                     } else {
                         let msg = format!(
@@ -325,18 +335,12 @@ pub fn id_from_var(
                 panic!("cannot have empty identifier")
             };
 
-            constr.add(
+            let (msg, expr_exp) = (
                 "variable with only expression",
-                &Expected::from(var),
-                &Expected::from(expr),
-                &env,
+                in_outer_scope(&Expected::from(expr)),
             );
-            constr.add(
-                "variable with only expression",
-                &exp_expr,
-                &Expected::from(expr),
-                &env,
-            );
+            with_expr(constr, msg, &Expected::from(var), &expr_exp, &env);
+            with_expr(constr, msg, &exp_expr, &expr_exp, &env);
         }
         (None, None) => {
             let any = Expected::any(var.pos);
